@@ -280,7 +280,7 @@ pub struct OutputCommitMapping {
 	/// The commit
 	#[serde(
 		serialize_with = "secp_ser::as_hex",
-		deserialize_with = "secp_ser::commitment_from_hex"
+		deserialize_with = "dalek_ser::commitment_from_hex"
 	)]
 	pub commit: pedersen::Commitment,
 }
@@ -315,7 +315,7 @@ pub struct PaymentProof {
 	/// Kernel Excess
 	#[serde(
 		serialize_with = "secp_ser::as_hex",
-		deserialize_with = "secp_ser::commitment_from_hex"
+		deserialize_with = "dalek_ser::commitment_from_hex"
 	)]
 	pub excess: pedersen::Commitment,
 	/// Recipient Wallet Address
@@ -336,7 +336,7 @@ pub struct BuiltOutput {
 	/// Blinding Factor
 	#[serde(
 		serialize_with = "secp_ser::as_hex",
-		deserialize_with = "secp_ser::blind_from_hex"
+		deserialize_with = "dalek_ser::blind_from_hex"
 	)]
 	pub blind: BlindingFactor,
 	/// Key Identifier
